@@ -58,7 +58,7 @@ def std_inputs(with_m=False, strike=True, call=None, extra=None):
 def bs_term(fname, hyps, with_m=False, strike=True, call=None):
     """Element term of pfhedge.nn.functional.<fname> on the symbols (x, t, v, K, m) under hyps.
     Requires a single returning path; returns (term, path)."""
-    key = (fname, tuple(h.uid for h in hyps), with_m, strike, call)
+    key = (fname, tuple(h.uid for h in hyps), with_m, strike, call, tm.KEEP_ZERO_FACTOR)
     if key in _cache:
         return _cache[key]
     import pfhedge.nn.functional as F
